@@ -31,7 +31,10 @@ class Ctl2:
         for act in self.scripts.get(cid, []):
             k = act[0]
             if k == "send":
-                channel.send(act[1])
+                try:
+                    channel.send(act[1])
+                except OSError:
+                    log.append(("send-refused",))  # the peer closed/dropped the channel meanwhile
             elif k == "recv":
                 try:
                     log.append(("item", channel.receive()))
